@@ -642,6 +642,9 @@ def np_norm(interp, name, args, kw, st, node):
     if rank == 2 and axn_ in (0, 1) and (b.get("ord") is None or b["ord"].kind == "none") and (b.get("keepdims") is None or b["keepdims"].kind == "none"):
         # row / column norms: sqrt of the diagonal of the Gram matrix (the form sums of squares take)
         term = T("sqrt", T("diagof", T("matmul", x.term, T("T", x.term)) if axn_ == 1 else T("matmul", T("T", x.term), x.term)))
+        if sh[1 - axn_].is_const() and sh[1 - axn_].c == 1:
+            # a single column / row: its norm along the long axis is the norm of the whole array (one entry)
+            term = T("reshape1", T("norm", x.term), A.dim_term(Dim(1)))
     if rsh == ():
         return V("arr", term, shape=(), labels=x.labels, orig=frozenset([FRESH]), loc=fresh_id())
     return fresh_arr(term, rsh, x.labels)
@@ -1076,6 +1079,21 @@ def np_diag(interp, name, args, kw, st, node):
 @reg("numpy.diag_indices_from", "numpy.diag_indices")
 def np_diag_indices(interp, name, args, kw, st, node):
     return V("diagidx", T("diagidx"), labels=frozenset())
+
+
+@reg("numpy.put")
+def np_put(interp, name, args, kw, st, node):
+    b = bind(["a", "ind", "v", "mode"], args, kw)
+    a_, ind, v = arrv(b["a"]), b["ind"], b["v"]
+    sh = shape(a_)
+    interp.event("mutate", node, st, how="put", target=a_, value=v, targetsrc="arg0")
+    if sh is not None and len(sh) == 1 and (b.get("mode") is None or b["mode"].kind == "none"):
+        # np.put(a, ind, v) on a vector is a[ind] = v
+        new = a_.replace(term=T("store", a_.term, arrv(ind).term if ind.kind != "int" else ind.term, v.term), labels=a_.labels | ind.labels | v.labels, has_const=False, const_=None, items=None)
+    else:
+        new = a_.replace(term=T("put", a_.term, ind.term, v.term), labels=a_.labels | ind.labels | v.labels, has_const=False, const_=None, items=None)
+    interp.rebind(a_, new, st)
+    return vconst(None)
 
 
 @reg("numpy.fill_diagonal")
